@@ -348,13 +348,16 @@ def pnpmWorkspace (content : Text) (tree : Node) : List PkgInfo := pnpmFind cont
 
 def isHash (v : Text) : Bool := byteLen v == 40 && v.all isAsciiHexDigit
 
+/-- `version_start_in_value`: one past the first `@` of the unquoted node text -/
+def ghaVStart (content : Text) (node : Node) : Nat :=
+  match findChar? (· == '@') (unquoteBoth (nodeText content node)) with | some p => p + 1 | none => 0
+
 /-- `parse_uses_value` -/
 def ghaUses (content : Text) (value : Text) (node : Node) : Option PkgInfo :=
   match Sites.usesSplit value with
   | some (some (owner, repo, version)) =>
     let name := owner ++ '/' :: repo
-    let vt := unquoteBoth (nodeText content node)
-    let vstart := match findChar? (· == '@') vt with | some p => p + 1 | none => 0
+    let vstart := ghaVStart content node
     let so := node.sb + vstart
     let col := node.info.sc + vstart
     if isHash version then
